@@ -85,7 +85,7 @@ func (pool *TransactionsPool) Validate(timestamp int64) {
 	}
 	lastBlockTransactions := pool.blocksManager.LastBlockTransactions()
 	utxosManagerCopy := pool.utxosManager.Copy()
-	if err := utxosManagerCopy.UpdateUtxos(lastBlockTransactions, nextBlockTimestamp); err != nil {
+	if err := utxosManagerCopy.UpdateUtxos(lastBlockTransactions, lastBlockTimestamp); err != nil {
 		pool.logger.Error(fmt.Errorf("failed to update UTXOs: %w", err).Error())
 		return
 	}
@@ -175,7 +175,7 @@ func (pool *TransactionsPool) addTransaction(transaction *ledger.Transaction) er
 	}
 	utxoManagerCopy := pool.utxosManager.Copy()
 	lastBlockTransactions := pool.blocksManager.LastBlockTransactions()
-	if err := utxoManagerCopy.UpdateUtxos(lastBlockTransactions, nextBlockTimestamp); err != nil {
+	if err := utxoManagerCopy.UpdateUtxos(lastBlockTransactions, lastBlockTimestamp); err != nil {
 		return fmt.Errorf("failed to update UTXOs: %w", err)
 	}
 	if err := utxoManagerCopy.UpdateUtxos(pool.transactions, nextBlockTimestamp); err != nil {
